@@ -22,7 +22,7 @@ VersionCs == {"none", "int", "str_int", "micro_upper", "micro_lower", "zero", "n
               "str_zero", "str_neg", "str_neg3"}       \* '0', '-1', '-3' (the private constants of M4, M3, M1 as text)
 ErrorCs   == {"none", "M", "m", "H", "h", "bad", "empty"}
 ModeCs    == {"none", "canon", "upper", "mixed", "bad"}
-MaskCs    == {"none", "int", "str_int", "four", "eight", "neg", "str_bad"}
+MaskCs    == {"none", "int", "str_int", "four", "eight", "neg", "str_bad", "zero", "str_zero", "str_seven"}      \* 0 and '0' are masks
 MicroCs   == {"none", "yes", "no"}
 EncCs     == {"none", "utf8", "utf8_upper", "latin1", "unknown"}
 ContentCs == {"digits", "alnum", "text", "bytes", "int", "empty", "long"}
@@ -93,7 +93,7 @@ Size ==
 \* normalize_mask needs to know whether the symbol is a Micro QR Code
 NormMask ==
   /\ pc = "mask" /\ pc' = "done"
-  /\ IF a.mask \in {"eight", "neg", "str_bad"} \/ (a.mask = "four" /\ ResultMicro) THEN Refuse("mask out of range") ELSE UNCHANGED refusals
+  /\ IF a.mask \in {"eight", "neg", "str_bad"} \/ (a.mask \in {"four", "str_seven"} /\ ResultMicro) THEN Refuse("mask out of range") ELSE UNCHANGED refusals
   /\ UNCHANGED <<a, ver, lookup>>
 Next == Pick \/ NormVersion \/ NormLevelMode \/ PrepareContent \/ Size \/ NormMask
 Spec == Init /\ [][Next]_vars
